@@ -18,11 +18,11 @@ import (
 	goast "go/ast"
 	goparser "go/parser"
 	"go/token"
-	"runtime"
 	"math"
 	"math/rand"
 	"reflect"
 	"regexp"
+	"runtime"
 	"sort"
 	"strings"
 
@@ -58,6 +58,7 @@ type C02Env struct {
 	GF64 func(float64) float64
 	GA   func([]interface{}) int
 	GNil func(int) interface{}
+	GNeg func(float64) float64
 }
 
 func c02Wrap(e *Env) *C02Env {
@@ -76,6 +77,7 @@ func c02Wrap(e *Env) *C02Env {
 	c.GF64 = func(x float64) float64 { logCall("GF64", x); return x }
 	c.GA = func(x []interface{}) int { logCall("GA", x); return len(x) }
 	c.GNil = func(x int) interface{} { logCall("GNil", x); return nil }
+	c.GNeg = func(x float64) float64 { logCall("GNeg", x); return -x }
 	return c
 }
 
@@ -83,7 +85,7 @@ var c02KindFns = []string{"GI", "GI8", "GI16", "GI32", "GI64", "GU", "GU8", "GU1
 
 // names that may be marked ConstExpr (pure functions of the universe + the panicking Boom)
 var c02ConstNames = []string{"Add", "Inc", "Concat", "IsPos", "Fast", "Sum", "Boom", "Id", "Half",
-	"GI", "GI8", "GU8", "GF32", "GF64", "GA", "GNil"}
+	"GI", "GI8", "GU8", "GF32", "GF64", "GA", "GNil", "GNeg"}
 
 func c02Envs(rng *rand.Rand, n int) []*C02Env {
 	var out []*C02Env
@@ -308,6 +310,7 @@ func c02ConstExprSources() []c02Src {
 	}
 	for _, s := range []string{`Concat("a", "b c") + "|" + Concat("a b", "c")`, `Concat("", "ab") + Concat("a", "b") + Concat("ab", "")`, `[Concat("a ", "b"), Concat("a", " b")]`,
 		`[Fast(1, 2), Fast("1", "2"), Fast("1 2")]`, `[Fast(), Fast(nil), Fast("")]`, `[Fast([1, 2]), Fast(1, 2)]`, "[Sum(1, 2), Sum(12), Sum(1, 2)]", "[Sum(), Sum(0)]", "Add(1, 2) + Add(1, 2)", "[Add(1, 2), Add(12, 0), Add(2, 1)]",
+		"[0.0, 1 / GNeg(0.0)]", "[GNeg(0.0), 0.0][1] == 0 ? 1 / [GNeg(0.0), 0.0][1] : 0", "1 / GNeg(0.0) + 1 / GNeg(GNeg(0.0))", "[1 / 0.0, 1 / GNeg(0.0), 1 / GNeg(0)]", "[GF64(0.0), GNeg(0.0), GF64(0.0)]",
 		"[Inc(1), Inc(1), Inc(2)]", "[Half(1), Half(1.0), Half(2)]", "[IsPos(1), IsPos(-1), IsPos(1)]", "[GI8(1), GU8(1), GF32(1), GF64(1), GI(1)]", "Id(Id(1)) == Id(1)", `[Id(1), Id(Id("1"))]`} {
 		out = append(out, c02Src{"const-expr repeated", s})
 	}
@@ -317,8 +320,8 @@ func c02ConstExprSources() []c02Src {
 // ---------------------------------------------------------------- tree inspection
 type c02Visit struct{ f func(ast.Node) }
 
-func (v *c02Visit) Enter(*ast.Node)     {}
-func (v *c02Visit) Exit(n *ast.Node)    { v.f(*n) }
+func (v *c02Visit) Enter(*ast.Node)            {}
+func (v *c02Visit) Exit(n *ast.Node)           { v.f(*n) }
 func c02Each(root *ast.Node, f func(ast.Node)) { ast.Walk(root, &c02Visit{f}) }
 
 // constant integer expressions: literals under + - * / % and unary + -
@@ -410,6 +413,7 @@ type c02Feat struct {
 	retypedFloat  bool // foldable arithmetic with an integer literal retyped to a float kind
 	retypedDiv    bool // `/` below which an integer literal was retyped to a kind other than int / int64
 	retypedOther  bool // other foldable arithmetic on literals retyped to a non-int kind
+	retypedMixed  bool // a foldable + - * / whose operands are constant trees of DIFFERENT kinds (a retyped literal next to an int-typed `%` tree): fold keeps the left one's type
 	arrayFold     bool // non-empty array literal whose elements are all int-constant or all string-constant
 	arrayUnderMap bool // such an array below a map literal
 	inRangeSite   bool
@@ -524,6 +528,39 @@ func c02Features(root ast.Node, consts []string) c02Feat {
 		i, ok := n.(*ast.IntegerNode)
 		return ok && i.Type() != nil && pred(i.Type().Kind())
 	}
+	// kind of a constant integer tree as the checker leaves it: literals retyped below + - * / and unary +/-,
+	// `%` trees stay int; reflect.Invalid = not such a tree, reflect.UnsafePointer = operands of different kinds
+	var constKind func(n ast.Node) reflect.Kind
+	constKind = func(n ast.Node) reflect.Kind {
+		switch x := n.(type) {
+		case *ast.IntegerNode:
+			if x.Type() == nil {
+				return reflect.Int
+			}
+			return x.Type().Kind()
+		case *ast.UnaryNode:
+			if x.Operator == "-" || x.Operator == "+" {
+				return constKind(x.Node)
+			}
+		case *ast.BinaryNode:
+			l, r := constKind(x.Left), constKind(x.Right)
+			if l == reflect.Invalid || r == reflect.Invalid {
+				return reflect.Invalid
+			}
+			switch x.Operator {
+			case "%":
+				return reflect.Int
+			case "+", "-", "*", "/":
+				if l != r {
+					f.retypedMixed = true
+					return reflect.UnsafePointer
+				}
+				return l
+			}
+		}
+		return reflect.Invalid
+	}
+	c02Each(&root, func(x ast.Node) { constKind(x) })
 	inSiteRange := map[ast.Node]bool{}
 	c02Each(&root, func(x ast.Node) {
 		if n, ok := x.(*ast.BinaryNode); ok && (n.Operator == "in" || n.Operator == "not in") {
@@ -1210,9 +1247,9 @@ func c02Classify(f c02Feat, r0, r1 coreRun, skip map[string]bool) string {
 		return "C02-in-range-nil-type"
 	case r1.err != nil && r0.err == nil && f.inArrayNilish && strings.Contains(msg1, "cannot use <nil> as index to map["):
 		return "C02-in-array-nil-type"
-	case (r0.err != nil) != (r1.err != nil) && f.retypedFloat && (strings.Contains(msg0+msg1, "reflect: Call using int as type float")):
+	case (r0.err != nil) != (r1.err != nil) && f.retypedFloat && f.retypedMixed && (strings.Contains(msg0+msg1, "reflect: Call using int as type float")):
 		return "C02-fold-retyped-float" // a float-typed and an int-typed literal folded together take the left one's type
-	case (r0.err != nil) != (r1.err != nil) && (f.retypedOther || f.retypedDiv) && (strings.Contains(msg0+msg1, "reflect: Call using int") || strings.Contains(msg0+msg1, "integer divide by zero")):
+	case (r0.err != nil) != (r1.err != nil) && (f.retypedOther || f.retypedDiv) && (f.retypedMixed && strings.Contains(msg0+msg1, "reflect: Call using int") || strings.Contains(msg0+msg1, "integer divide by zero")):
 		return "C02-fold-retyped-int"
 	case r0.err == nil && r1.err == nil && f.inRangeImpure && !simLog(r0.log, r1.log, skip):
 		return "C02-in-range-double-eval"
